@@ -239,6 +239,8 @@ func runC05(c *Ctx, r *Report) {
 	refusedOperationsLeaveNoTrace(c, r, "R-C05.5")
 	r.Doc("R-C05.6", "the head scan used by merges and loaders is exact: an entry wrongly treated as referenced (or a head never examined) disappears from the views although it is still indexed")
 	findHeadsShape(c, r, "R-C05.6")
+	r.Doc("R-C05.7", "a merge never swaps an entry object the log holds for the other log's object of the same hash: the views keep returning the byte-identical entry that was validated")
+	mergedHeadObjects(c, r, "R-C05.7")
 	appendSingleSection(c, r, "R-C05.4", "a merge or append landing in the window has its heads overwritten: entries stay in the index but disappear from Values(), so successive views are not subsequences")
 	fe := &freshEngine{p: p, cg: c.CG, mutators: map[string]bool{}, freshRet: map[*Fn]int{}}
 	for _, it := range []string{"IPFSLogEntry", "IPFSLogLamportClock"} {
